@@ -116,12 +116,17 @@ fn run_one(sys: usize, len: usize, natt: usize, survivor: bool, obs: Observer, k
     let total_t = calls.chars().filter(|c| *c == 'T').count();
     // ---- observe
     let mut got: Vec<Vec<u8>> = Vec::new();
+    // attachments of every delivered message, in delivery order: (channels, number of regions)
+    let mut got_att: Vec<(Vec<platform::OsOpaqueIpcChannel>, usize)> = Vec::new();
     let mut closed = false;
     let mut errors: Vec<String> = Vec::new();
     let sentinel = b"__survivor__".to_vec();
+    // the survivor's message carries one attachment of its own: a sender whose receiver stays here
+    let (ptx, prx) = platform::channel().unwrap();
     if let Some(s) = &surv {
-        s.send(&sentinel, vec![], vec![]).unwrap();
+        s.send(&sentinel, vec![OsIpcChannel::Sender(ptx.clone())], vec![]).unwrap();
     }
+    drop(ptx);
     let deadline = std::time::Instant::now() + std::time::Duration::from_secs(8);
     let finished = |got: &Vec<Vec<u8>>, closed: bool| closed || got.last() == Some(&sentinel);
     match obs {
@@ -130,9 +135,9 @@ fn run_one(sys: usize, len: usize, natt: usize, survivor: bool, obs: Observer, k
             let h = std::thread::spawn(move || {
                 loop {
                     match rx.recv() {
-                        Ok((d, _, _)) => {
+                        Ok((d, ch, sh)) => {
                             let fin = d == b"__survivor__";
-                            let _ = tx_r.send(Ok(d));
+                            let _ = tx_r.send(Ok((d, ch, sh.len())));
                             if fin {
                                 break;
                             }
@@ -146,7 +151,10 @@ fn run_one(sys: usize, len: usize, natt: usize, survivor: bool, obs: Observer, k
             });
             loop {
                 match rx_r.recv_timeout(std::time::Duration::from_secs(8)) {
-                    Ok(Ok(d)) => got.push(d),
+                    Ok(Ok((d, ch, ns))) => {
+                        got.push(d);
+                        got_att.push((ch, ns));
+                    },
                     Ok(Err((c, e))) => {
                         if c {
                             closed = true;
@@ -170,7 +178,10 @@ fn run_one(sys: usize, len: usize, natt: usize, survivor: bool, obs: Observer, k
         },
         Observer::TryRecv => loop {
             match rx.try_recv() {
-                Ok((d, _, _)) => got.push(d),
+                Ok((d, ch, sh)) => {
+                    got.push(d);
+                    got_att.push((ch, sh.len()));
+                },
                 Err(e) if e.channel_is_closed() => closed = true,
                 Err(e) => {
                     let s = format!("{:?}", e);
@@ -199,11 +210,11 @@ fn run_one(sys: usize, len: usize, natt: usize, survivor: bool, obs: Observer, k
                         let mut stop = false;
                         for r in rs {
                             match r {
-                                OsIpcSelectionResult::DataReceived(i, d, _, _) => {
+                                OsIpcSelectionResult::DataReceived(i, d, ch, sh) => {
                                     if d == b"__survivor__" {
                                         stop = true;
                                     }
-                                    let _ = tx_r.send(Ok((i, d)));
+                                    let _ = tx_r.send(Ok((i, d, ch, sh.len())));
                                 },
                                 OsIpcSelectionResult::ChannelClosed(i) => {
                                     let _ = tx_r.send(Err(i));
@@ -220,11 +231,12 @@ fn run_one(sys: usize, len: usize, natt: usize, survivor: bool, obs: Observer, k
             });
             loop {
                 match rx_r.recv_timeout(std::time::Duration::from_secs(8)) {
-                    Ok(Ok((i, d))) => {
+                    Ok(Ok((i, d, ch, ns))) => {
                         if i != rid {
                             case.fail("select reported a foreign id".into());
                         }
-                        got.push(d)
+                        got.push(d);
+                        got_att.push((ch, ns));
                     },
                     Ok(Err(_)) => closed = true,
                     Err(_) => {
@@ -253,6 +265,25 @@ fn run_one(sys: usize, len: usize, natt: usize, survivor: bool, obs: Observer, k
             delivered_interrupted = true;
         } else {
             case.fail(format!("a shortened or altered payload ({} bytes instead of {}) was delivered as a message", d.len(), len));
+        }
+    }
+    // every delivered message carries exactly its own attachments (the discarded message's must not show up anywhere)
+    for (i, d) in got.iter().enumerate() {
+        let (ch, ns) = &mut got_att[i];
+        let want = if *d == sentinel { 1 } else if *d == full && i > 0 { natt } else { 0 };
+        if ch.len() != want || *ns != 0 {
+            case.fail(format!(
+                "delivered message #{} ({} bytes) carries {} channel(s) and {} region(s) instead of its own {} channel(s): attachments of another (discarded) message were mixed in",
+                i, d.len(), ch.len(), ns, want
+            ));
+        } else if *d == sentinel {
+            // identity: the survivor's attachment must be the sender of the probe channel
+            let nonce = b"nonce-probe".to_vec();
+            let _ = ch[0].to_sender().send(&nonce, vec![], vec![]);
+            match prx.try_recv() {
+                Ok((p, _, _)) if p == nonce => {},
+                _ => case.fail("the endpoint delivered with the survivor's message is not the one that was attached to it".into()),
+            }
         }
     }
     if survivor {
